@@ -91,5 +91,19 @@ fn main() {
             if !agree(&s, &m) { println!("FOUND eviction-differs limit={} after {} confirmable rounds", limit, i + 1); std::process::exit(1); }
         }
     }
+    // pseudo-random longer histories (fixed generator, so a replay finds the same history again)
+    let mut x: u64 = 0x9E3779B97F4A7C15;
+    let mut rnd = move |n: usize| -> usize { x ^= x << 13; x ^= x >> 7; x ^= x << 17; (x % n as u64) as usize };
+    for limit in [1u8, 2] { for _ in 0..20000 {
+        let len = 5 + rnd(8);
+        let h: Vec<Op> = (0..len).map(|_| ops[rnd(ops.len())].clone()).collect();
+        let mut s = Subject::<String>::default(); s.set_unacknowledged_limit(limit);
+        let mut m = std::collections::BTreeMap::new();
+        for (i, o) in h.iter().enumerate() {
+            if std::panic::catch_unwind(std::panic::AssertUnwindSafe(|| apply_real(&mut s, o))).is_err() { found("panic", &h[..=i]); }
+            apply_model(&mut m, limit as u32, o);
+            if !agree(&s, &m) { println!("FOUND registry-differs-from-model limit={} {:?}", limit, &h[..=i]); std::process::exit(1); }
+        }
+    } }
     println!("NONE");
 }
